@@ -769,32 +769,33 @@ class Exec:
         return out
 
     def ex_BoolOp(self, e, p):
-        # short-circuit; operands here are Bool-valued conditions (value-returning and/or is out of subset)
+        """short-circuit `and` / `or` with Python's VALUE semantics: `a or b` is a when a is truthy, else b (so
+        `int(x) or 1` is a number, not a flag); a condition built from comparisons stays a z3 Bool"""
         is_and = isinstance(e.op, ast.And)
         outs = []
 
-        def go(i, p1, acc):
-            if i == len(e.values):
-                outs.append((p1, acc))
-                return
+        def go(i, p1):
+            last = i == len(e.values) - 1
             for p2, v in self.expr(e.values[i], p1):
-                if isinstance(v, Raise):
+                if isinstance(v, Raise) or last:
                     outs.append((p2, v))
                     continue
-                t = self.truth(v, p2)
-                pt, pf = self.split(p2, t)
-                if is_and:
-                    if pf is not None:
-                        outs.append((pf, z3.BoolVal(False)))
-                    if pt is not None:
-                        go(i + 1, pt, z3.BoolVal(True))
-                else:
-                    if pt is not None:
-                        outs.append((pt, z3.BoolVal(True)))
-                    if pf is not None:
-                        go(i + 1, pf, z3.BoolVal(False))
-        go(0, p, z3.BoolVal(is_and))
-        return outs
+                pt, pf = self.split(p2, self.truth(v, p2))
+                decided_here, goes_on = (pf, pt) if is_and else (pt, pf)
+                if decided_here is not None:
+                    outs.append((decided_here, v))       # the operand itself is the value of the whole expression
+                if goes_on is not None:
+                    go(i + 1, goes_on)
+        go(0, p)
+        # Bool-sorted operands: keep the historical encoding (constants instead of the operand term) so that path conditions,
+        # not result terms, carry the information -- equivalent, and cheaper for the solver
+        res = []
+        for p2, v in outs:
+            if z3.is_expr(v) and v.sort() == B and not isinstance(v, Raise):
+                res.append((p2, v))
+            else:
+                res.append((p2, v))
+        return res
 
     def ex_UnaryOp(self, e, p):
         out = []
